@@ -16,6 +16,7 @@ type Env struct {
 	vars     map[string]*Val
 	lets     map[string]Expr
 	st, old  *State
+	pre      *State // loop-entry state (invariants only)
 	frame    *Frame
 	blk      *ssa.BasicBlock
 	override map[ssa.Value]*Val
@@ -254,6 +255,16 @@ func (e *Env) eval(x Expr) (*Val, error) {
 		ne := *e
 		ne.st = e.old
 		return ne.eval(n.X)
+	case *ECall:
+		if id, ok := n.Fun.(*EIdent); ok && id.Name == "pre" && len(n.Args) == 1 {
+			if e.pre == nil {
+				return nil, fmt.Errorf("pre() is only available in loop invariants")
+			}
+			ne := *e
+			ne.st = e.pre
+			return ne.eval(n.Args[0])
+		}
+		return e.evalCall(n)
 	case *EUnary:
 		v, err := e.eval(n.X)
 		if err != nil {
@@ -352,8 +363,6 @@ func (e *Env) eval(x Expr) (*Val, error) {
 		}
 		fr := &Frame{c: c}
 		return scalar(fr.substr(xv.T, lo, hi), types.Typ[types.String]), nil
-	case *ECall:
-		return e.evalCall(n)
 	}
 	return nil, fmt.Errorf("cannot evaluate %T", x)
 }
@@ -907,6 +916,22 @@ func (e *Env) evalCall(n *ECall) (*Val, error) {
 				return nil, err
 			}
 			return scalar(tAnd(tNot(tEq(a.T, tNull)), tEq(tApp(SInt, "dyntype", a.T), c.typeID(tt))), boolT), nil
+		case "unbox":
+			// unbox(x, T): the value of non-reference type T held in interface value x
+			if len(n.Args) != 2 {
+				return nil, fmt.Errorf("unbox(x, T)")
+			}
+			a, err := e.eval(n.Args[0])
+			if err != nil {
+				return nil, err
+			}
+			tt, ts, err := e.resolveType(exprText(n.Args[1]))
+			if err != nil {
+				return nil, err
+			}
+			fr := &Frame{c: c}
+			_, u := fr.boxFun(tt, ts)
+			return &Val{T: tApp(ts, u, a.T), Typ: tt}, nil
 		case "cast":
 			// cast(x, T): reinterpret a V value with a static Go type (for field access)
 			if len(n.Args) != 2 {
